@@ -5,6 +5,7 @@ import (
 	"fmt"
 	"math/rand"
 	"os"
+	"strings"
 	"sync"
 
 	"github.com/aml-org/amf-custom-validator/pkg"
@@ -23,6 +24,20 @@ func runRaceStress(seed int64, goroutines, callsEach int) {
 		prof := ProfileSpec{Name: fmt.Sprintf("race %d", i), Atoms: c.Atoms, Paths: c.Paths, Validations: c.Validations}
 		jobs = append(jobs, job{prof.Render(), c.Graph.RenderFlat()})
 	}
+	// profiles every call must reject: at the parser (missing targetClass at the very end) and at the generator
+	// (undeclared prefix in the last of many validations, so that the compilations overlap for a while)
+	var many strings.Builder
+	many.WriteString("profile: rejected\nprefixes:\n  ex: " + NS + "\nviolation:\n")
+	for k := 0; k < 80; k++ {
+		fmt.Fprintf(&many, "  - v%d\n", k)
+	}
+	many.WriteString("validations:\n")
+	for k := 0; k < 80; k++ {
+		fmt.Fprintf(&many, "  v%d:\n    targetClass: ex.T\n    message: m\n    propertyConstraints:\n      ex.p%d:\n        minCount: 1\n", k, k)
+	}
+	genFail := strings.Replace(many.String(), "ex.p79:", "undeclared.p79:", 1)
+	parseFail := strings.Replace(many.String(), "  v79:\n    targetClass: ex.T\n", "  v79:\n", 1)
+	jobs = append(jobs, job{genFail, jobs[0].data}, job{parseFail, jobs[0].data})
 	serial := make([]string, len(jobs))
 	for i, j := range jobs {
 		o := validate(j.profile, j.data, defaultRC())
@@ -55,6 +70,12 @@ func runRaceStress(seed int64, goroutines, callsEach int) {
 			}()
 			for k := 0; k < callsEach; k++ {
 				i := (t + k) % len(jobs)
+				switch k % 3 {
+				case 1:
+					i = len(jobs) - 1 - (k/3)%2 // every goroutine compiles the same REJECTED profile at the same time
+				case 2:
+					i = k % (len(jobs) - 2) // every goroutine works on the same valid job at the same time
+				}
 				var got, want, what string
 				switch (t + 2*k) % 3 {
 				case 0:
@@ -66,7 +87,10 @@ func runRaceStress(seed int64, goroutines, callsEach int) {
 				default:
 					c, err := pkg.CompileProfile(jobs[i].profile, false, nil)
 					if err != nil {
-						got, want, what = "compile error: "+err.Error(), "ok", "CompileProfile"
+						// a rejected profile: the serial validation of the same job reports an error too
+						got, want, what = "error\n", serial[i], "CompileProfile"
+					} else if c == nil {
+						got, want, what = "nil compiled profile without an error", serial[i], "CompileProfile"
 					} else {
 						rep, err := pkg.ValidateCompiledWithConfiguration(c, jobs[i].data, false, nil, fixedClock{}, defaultRC())
 						got, want, what = "ok\n"+rep, serial[i], "CompileProfile+ValidateCompiled"
